@@ -941,13 +941,7 @@ impl XmlCData {
     }
 
     pub fn insert(&mut self, offset: usize, data: &str) -> error::Result<()> {
-        fn check(value: &str) -> error::Result<bool> {
-            let new = format!("<![CDATA[{}]]>", value);
-            let (rest, _) = xml_parser::cdsect(new.as_str())?;
-            Ok(rest.is_empty())
-        }
-
-        self.data = insert_char_at(self.data.as_str(), offset, data, check)?;
+        self.data = insert_char_at(self.data.as_str(), offset, data, Self::check)?;
         Ok(())
     }
 
@@ -957,6 +951,13 @@ impl XmlCData {
 
     pub fn len(&self) -> usize {
         self.data.chars().count()
+    }
+
+    /// Replaces `count` characters from `offset` with `data`. The section is left as it is when
+    /// the outcome would not be the content of a CDATA section.
+    pub fn replace(&mut self, offset: usize, count: usize, data: &str) -> error::Result<()> {
+        self.data = replace_char_range(self.data.as_str(), offset, count, data, Self::check)?;
+        Ok(())
     }
 
     pub fn split_at(&mut self, offset: usize) -> XmlNode<Self> {
@@ -981,6 +982,12 @@ impl XmlCData {
             .skip(range.start)
             .take(range.end - range.start)
             .collect()
+    }
+
+    fn check(value: &str) -> error::Result<bool> {
+        let new = format!("<![CDATA[{}]]>", value);
+        let (rest, _) = xml_parser::cdsect(new.as_str())?;
+        Ok(rest.is_empty())
     }
 }
 
@@ -1170,13 +1177,7 @@ impl XmlComment {
     }
 
     pub fn insert(&mut self, offset: usize, comment: &str) -> error::Result<()> {
-        fn check(value: &str) -> error::Result<bool> {
-            let new = format!("<!--{}-->", value);
-            let (rest, _) = xml_parser::comment(new.as_str())?;
-            Ok(rest.is_empty())
-        }
-
-        self.comment = insert_char_at(self.comment.as_str(), offset, comment, check)?;
+        self.comment = insert_char_at(self.comment.as_str(), offset, comment, Self::check)?;
         Ok(())
     }
 
@@ -1188,12 +1189,26 @@ impl XmlComment {
         self.comment.chars().count()
     }
 
+    /// Replaces `count` characters from `offset` with `comment`. The comment is left as it is
+    /// when the outcome would not be the content of a comment.
+    pub fn replace(&mut self, offset: usize, count: usize, comment: &str) -> error::Result<()> {
+        self.comment =
+            replace_char_range(self.comment.as_str(), offset, count, comment, Self::check)?;
+        Ok(())
+    }
+
     pub fn substring(&self, range: Range<usize>) -> String {
         self.comment
             .chars()
             .skip(range.start)
             .take(range.end - range.start)
             .collect()
+    }
+
+    fn check(value: &str) -> error::Result<bool> {
+        let new = format!("<!--{}-->", value);
+        let (rest, _) = xml_parser::comment(new.as_str())?;
+        Ok(rest.is_empty())
     }
 }
 
@@ -3596,12 +3611,7 @@ impl XmlText {
     }
 
     pub fn insert(&mut self, offset: usize, text: &str) -> error::Result<()> {
-        fn check(value: &str) -> error::Result<bool> {
-            let (rest, content) = xml_parser::content(value)?;
-            Ok(rest.is_empty() && content.children.is_empty())
-        }
-
-        self.text = insert_char_at(self.text.as_str(), offset, text, check)?;
+        self.text = insert_char_at(self.text.as_str(), offset, text, Self::check)?;
         Ok(())
     }
 
@@ -3611,6 +3621,13 @@ impl XmlText {
 
     pub fn len(&self) -> usize {
         self.text.chars().count()
+    }
+
+    /// Replaces `count` characters from `offset` with `text`. The text is left as it is when
+    /// the outcome would not be character data.
+    pub fn replace(&mut self, offset: usize, count: usize, text: &str) -> error::Result<()> {
+        self.text = replace_char_range(self.text.as_str(), offset, count, text, Self::check)?;
+        Ok(())
     }
 
     pub fn split_at(&mut self, offset: usize) -> XmlNode<Self> {
@@ -3635,6 +3652,11 @@ impl XmlText {
             .skip(range.start)
             .take(range.end - range.start)
             .collect()
+    }
+
+    fn check(value: &str) -> error::Result<bool> {
+        let (rest, content) = xml_parser::content(value)?;
+        Ok(rest.is_empty() && content.children.is_empty())
     }
 }
 
@@ -4429,6 +4451,30 @@ fn qname(name: &xml_nom::model::QName<'_>) -> (String, Option<String>) {
             (n.local_part.to_string(), Some(n.prefix.to_string()))
         }
         xml_nom::model::QName::Unprefixed(n) => (n.to_string(), None),
+    }
+}
+
+fn replace_char_range<F>(
+    value: &str,
+    offset: usize,
+    count: usize,
+    new: &str,
+    check: F,
+) -> error::Result<String>
+where
+    F: Fn(&str) -> error::Result<bool>,
+{
+    let mut chars = delete_char_range(value, offset, count)
+        .chars()
+        .collect::<Vec<char>>();
+    let index = offset.min(chars.len());
+    chars.splice(index..index, new.chars());
+    let replaced = chars.iter().collect::<String>();
+
+    if check(replaced.as_str())? {
+        Ok(replaced)
+    } else {
+        Err(error::Error::InvalidData(new.to_string()))
     }
 }
 
